@@ -140,20 +140,21 @@ func init() {
 			MaxDecisions: 1000, MaxPaths: 5000, TimeoutSec: timeout, NeedReach: []string{"end"}}
 	}
 	registry["C03"] = &Property{
-		Quick:    []HarnessSpec{c03("VC03_AppendLayout", 1, 1, 1, 400), c03("VC03_AppendTwice", 1, 1, 2, 400)},
-		Thorough: []HarnessSpec{c03("VC03_AppendLayout", 0, 1, 1, 600), c03("VC03_AppendLayout", 1, 1, 1, 600), c03("VC03_AppendLayout", 1, 0, 1, 600), c03("VC03_AppendLayout", 2, 1, 1, 3000), c03("VC03_AppendTwice", 1, 1, 3, 1200)},
-		Bounds: []string{"symbolic well-formed image as in C01 (1 section quick; 0..2 thorough; PE32/PE32+), with or without an existing certificate table of arbitrary content; signature bytes and length symbolic (0..65536, every length mod 8)",
+		Quick:    []HarnessSpec{c03("VC03_AppendLayout", 1, 1, 1, 400), c03("VC03_AppendTwice", 1, 1, 2, 400), {Name: "VC03_SignVerify", MaxDecisions: 2000, TimeoutSec: 300, NeedReach: []string{"end"}}},
+		Thorough: []HarnessSpec{c03("VC03_AppendLayout", 0, 1, 1, 600), c03("VC03_AppendLayout", 1, 1, 1, 600), c03("VC03_AppendLayout", 1, 0, 1, 600), c03("VC03_AppendLayout", 2, 1, 1, 3000), c03("VC03_AppendTwice", 1, 1, 3, 1200), {Name: "VC03_SignVerify", MaxDecisions: 2000, TimeoutSec: 600, NeedReach: []string{"end"}}},
+		Bounds: []string{"sign/verify histories on the shipped test image under the signature model: sign, serialise, re-parse (digest unchanged, embedded digest equal, verifies for the signer, not for another certificate), sign again with another key on the re-parsed image (both verify, a third certificate does not, two table entries); serials symbolic",
+			"symbolic well-formed image as in C01 (1 section quick; 0..2 thorough; PE32/PE32+), with or without an existing certificate table of arbitrary content; signature bytes and length symbolic (0..65536, every length mod 8)",
 			"decided: output bytes = every original byte except the directory entry, zero padding to 8, old table, new WIN_CERTIFICATE (dwLength=8+len, revision 0x0200, type 0x0002, data, padding to 8); directory entry = (padded length or old address, table size) and spans to end of file; 2 (quick) / 3 in-memory appends"},
-		Outside: []string{"re-parse digest equality and verification after signing (need the PKCS#7 crypto model; the specification-level lemma 'specified signed file is well-formed and keeps the specification digest' was attempted and is undecided by the solvers within 20 s per query: harness VC03_SignedIsWellFormed is kept but not registered)", "acceptance by real firmware"},
+		Outside: []string{"re-parse digest equality for symbolic images (decided on the fixture only; the specification-level lemma 'specified signed file is well-formed and keeps the specification digest' was attempted and is undecided by the solvers within 20 s per query: harness VC03_SignedIsWellFormed is kept but not registered)", "acceptance by real firmware"},
 		Assumptions: commonAssumptions,
 	}
 	c09 := func(name string, lists, entries, timeout int, reach ...string) HarnessSpec {
 		return HarnessSpec{Name: name, Params: map[string]int{"vsymC09Lists": lists, "vsymC09Entries": entries}, MaxPaths: 3000000, TimeoutSec: timeout, NeedReach: reach}
 	}
 	registry["C09"] = &Property{
-		Quick: []HarnessSpec{c09("VC09_Append", 2, 2, 300, "append-ok", "append-error", "end"), c09("VC09_Remove", 2, 2, 300, "remove-ok", "remove-error", "end"), c09("VC09_Membership", 2, 1, 300, "end")},
+		Quick: []HarnessSpec{c09("VC09_Append", 2, 2, 300, "append-ok", "append-error", "end"), c09("VC09_Remove", 2, 2, 300, "remove-ok", "remove-error", "end"), c09("VC09_Remove", 1, 3, 300, "remove-ok", "remove-error", "end"), c09("VC09_Append", 1, 3, 300, "append-ok", "append-error", "end"), c09("VC09_Membership", 2, 1, 300, "end")},
 		Thorough: []HarnessSpec{c09("VC09_Append", 3, 2, 3000, "append-ok", "append-error", "end"), c09("VC09_Remove", 3, 2, 3000, "remove-ok", "remove-error", "end"), c09("VC09_Membership", 2, 2, 3000, "end")},
-		Bounds: []string{"one operation (Append / Remove / BytesExists / SigDataExists) with symbolic arguments from an arbitrary valid pre-state: 0..2 lists x 1..2 entries (quick; membership 1 entry per list) / 0..3 x 1..2 (thorough), list kinds SHA-256, X.509 of 3/4/59 bytes, SHA-1; argument types SHA-256, X.509, SHA-1, unknown GUID; data lengths 32, 3, 4, 33, 20, 59; X.509 data raw or as PEM text (vsym.PEMOf); owners and data symbolic",
+		Bounds: []string{"one operation (Append / Remove / BytesExists / SigDataExists) with symbolic arguments from an arbitrary valid pre-state: 0..2 lists x 1..2 entries and 0..1 list x 1..3 entries (quick; membership 1 entry per list) / 0..3 x 1..2 (thorough), list kinds SHA-256, X.509 of 3/4/59 bytes, SHA-1; argument types SHA-256, X.509, SHA-1, unknown GUID; data lengths 32, 3, 4, 33, 20, 59; X.509 data raw or as PEM text (vsym.PEMOf); owners and data symbolic",
 			"pre-state invariant Inv: ListSize = 28 + n*Size, every entry has Size bytes, n >= 1, no duplicate inside a list; histories of any length follow by induction on the step, the empty database is the base case"},
 		Outside: []string{"AppendList / AppendDatabase and the list-level API (SignatureList.AppendBytes on a list of another size)", "duplicates across two lists of equal type and size (the statement is read per list)", "real certificates (data is opaque bytes)"},
 		Assumptions: append([]string{"encoding/pem.Decode is modelled: PEM inputs are introduced with vsym.PEMOf (decode to their DER bytes), other symbolic data is assumed not to be PEM text; native replays use the real encoding/pem"}, commonAssumptions...),
